@@ -450,3 +450,27 @@ func ConfigProposalBlocks(w *world.World, s hist.State, h int64, tag, update str
 	}
 	return [][][]byte{{create}, {fund}, votes, {}, {}, {}}
 }
+
+// FailingFeeConfigCreate: a configuration proposal that would raise the minimum fee is created under an id
+// that is taken already (so it fails, after its options were looked at), and right behind it comes an ordinary
+// transfer paying the fee price that is the minimum today.
+func FailingFeeConfigCreate(c *Ctx, tag string) []hist.TxSpec {
+	us := c.W.Users
+	id := PropID("c06fee/" + tag)
+	goal, _ := balance.NewAmountFromString(c.W.P.PropFundingGoal, 10)
+	optVoting, pass := c.W.P.VotingDeadline, 51
+	if o := propOptionOf(c.S, governance.ProposalTypeConfigUpdate); o != nil {
+		optVoting, pass = o.VotingDeadline, o.PassPercentage
+	}
+	proposer := us[3%len(us)]
+	msg := &govact.CreateProposal{ProposalID: governance.ProposalID(id), ProposalType: governance.ProposalTypeConfigUpdate, Headline: "h fee", Description: "d fee", Proposer: proposer.Addr,
+		InitialFunding: txb.Amt("OLT", c.W.P.PropInitialFund), FundingDeadline: c.H + 5, FundingGoal: goal, VotingDeadline: c.H + 5 + optVoting, PassPercentage: pass, ConfigUpdate: "feeOption.minFeeDecimal:8"}
+	note := "create a configuration proposal that raises the minimum fee"
+	if _, rec := FindProposal(c.S, id); rec != nil {
+		note = "create a configuration proposal that raises the minimum fee, under an id that is taken (must fail)"
+	}
+	create := Build(c, "PROPOSAL_CREATE", msg, note, proposer)
+	create.Meta = map[string]string{"proposal": id, "amount": c.W.P.PropInitialFund, "funder": proposer.Addr.String()}
+	send := Build(c, "SEND", txb.Send(us[2].Addr, us[1].Addr, "OLT", "3"), "transfer at today's minimum fee price right behind the proposal", us[2])
+	return []hist.TxSpec{create, send}
+}
